@@ -354,4 +354,44 @@ theorem desc_refines (sc : Scanf) (p : Pen) (a : PenAttr) (s : List UInt8) :
   · refine Or.inr ⟨by rw [h], store a.width a.signed idx, store_representable _ _ _ a.width_pos, Or.inr ⟨rgb, ?_⟩⟩
     rw [h]; simp only; rw [abs_setColourAttrRgb8, abs_setColourAttr']
 
+/-! ### which strings give which index (under the recorded behaviour of glibc's `sscanf`, `glibcScanf`)
+
+These are the `desc_grammar` statements of DESIGN.md: they depend on the small explicit model of `sscanf`
+(`Tickit.Scan`), which is tied to the real libc only by differential execution. -/
+
+/-- Every name of the `colournames[]` table (regenerated from the source) gives its table index. -/
+theorem desc_names :
+    colourNames.all (fun e => descParse glibcScanf e.1 == some (e.2, none)) = true := by decide +kernel
+
+/-- `hi-` before a name adds 8 to the eight VGA colours and leaves the 256-colour names alone. -/
+theorem desc_hi_names :
+    colourNames.all (fun e => descParse glibcScanf (hiPrefix ++ e.1) == some (if e.2 < 8 then e.2 + 8 else e.2, none)) = true := by
+  decide +kernel
+
+/-- A decimal number (any number of digits, value below 2^31) is that index … -/
+theorem desc_number (ds : List UInt8) (hne : ds ≠ []) (hd : ∀ d ∈ ds, Scan.isDigit d = true) (hv : Scan.decVal ds < 2 ^ 31) :
+    descParse glibcScanf ds = some ((Scan.decVal ds : Int), none) := Scan.desc_number ds hne hd hv
+
+/-- … and after `hi-` the numbers 0…7 give 8…15 and larger ones are rejected. -/
+theorem desc_hi_number (ds : List UInt8) (hne : ds ≠ []) (hd : ∀ d ∈ ds, Scan.isDigit d = true) (hv : Scan.decVal ds < 2 ^ 31) :
+    descParse glibcScanf (hiPrefix ++ ds) = if Scan.decVal ds ≤ 7 then some ((Scan.decVal ds : Int) + 8, none) else none :=
+  Scan.desc_hi_number ds hne hd hv
+
+example : descParse glibcScanf "red #FF1515".toUTF8.toList = some (1, some ⟨0xFF, 0x15, 0x15⟩) := by decide +kernel
+example : descParse glibcScanf "hi-12".toUTF8.toList = none := by decide +kernel
+
+/-- Oddities of the parser, recorded (not violations of C19: each is "some index via the direct call"):
+    names are matched as *prefixes* (`strncmp` with the length of the description), so the empty string and
+    `"hi-"` are accepted as black / bright black, `"b"` is black, `"g"` is green; junk after a number is
+    ignored; an index outside the bit-field wraps. -/
+theorem desc_prefix_quirks :
+    descParse glibcScanf [] = some (0, none) ∧
+    descParse glibcScanf hiPrefix = some (8, none) ∧
+    descParse glibcScanf "b".toUTF8.toList = some (0, none) ∧
+    descParse glibcScanf "g".toUTF8.toList = some (2, none) ∧
+    descParse glibcScanf "#102030".toUTF8.toList = some (0, some ⟨0x10, 0x20, 0x30⟩) ∧
+    descParse glibcScanf "12abc".toUTF8.toList = some (12, none) ∧
+    descParse glibcScanf "hi--5".toUTF8.toList = some (3, none) ∧
+    (Pen.new.setColourAttr .fg 300).getColourAttr .fg = -212 := by decide +kernel
+
 end Tickit.Props.C19
